@@ -1,11 +1,13 @@
 package sim
 
 import (
+	"encoding/base64"
 	"encoding/csv"
 	"encoding/json"
 	"encoding/xml"
 	"fmt"
 	"io"
+	"net/url"
 	"strconv"
 	"strings"
 
@@ -39,6 +41,10 @@ func genRecords(r *Rand, format string, fileIndex int) string {
 		return GenLua(r, DocID(r, fileIndex, 0))
 	case "xml":
 		return GenXML(r, DocID(r, fileIndex, 0))
+	case "base64":
+		return base64.StdEncoding.EncodeToString([]byte(DocID(r, fileIndex, 0)+" "+strings.Repeat(Pick(r, wordPool)+" ", r.Range(2, 12)))) + "\n"
+	case "uri":
+		return url.QueryEscape(DocID(r, fileIndex, 0)+" & "+Pick(r, wordPool)+"/é?=") + "\n"
 	}
 	return ""
 }
@@ -99,6 +105,22 @@ func breakRecords(r *Rand, format, text string) string {
 			lines[k] = "a = 1 2\n"
 		}
 		return strings.Join(lines, "")
+	case "base64":
+		// a byte outside every base64 alphabet after at least one complete group, or a cut inside a group
+		t := strings.TrimRight(text, "\n")
+		if len(t) < 12 {
+			return text
+		}
+		if r.Chance(1, 3) {
+			cut := 4*r.Range(1, len(t)/4-1) + 1
+			return t[:cut] + "\n"
+		}
+		k := 4 * r.Range(1, len(t)/4-1)
+		return t[:k] + Pick(r, []string{"*", "!", "\x00", "%"}) + t[k+1:] + "\n"
+	case "uri":
+		t := strings.TrimRight(text, "\n")
+		k := r.Range(1, len(t)-1)
+		return t[:k] + Pick(r, []string{"%zz", "%", "%4", "%g1"}) + "\n"
 	case "xml":
 		// a file cut short: elements that are never closed (data-losing damage only)
 		switch r.Intn(3) {
@@ -164,6 +186,16 @@ func MalformedFor(format, text string) bool {
 				return true
 			}
 		}
+	case "base64":
+		t := strings.TrimSpace(text)
+		_, e1 := base64.StdEncoding.DecodeString(t)
+		_, e2 := base64.RawStdEncoding.DecodeString(strings.TrimRight(t, "="))
+		_, e3 := base64.URLEncoding.DecodeString(t)
+		_, e4 := base64.RawURLEncoding.DecodeString(strings.TrimRight(t, "="))
+		return e1 != nil && e2 != nil && e3 != nil && e4 != nil
+	case "uri":
+		_, err := url.QueryUnescape(strings.TrimSpace(text))
+		return err != nil
 	case "lua":
 		ls := lua.NewState(lua.Options{SkipOpenLibs: true})
 		defer ls.Close()
